@@ -65,14 +65,83 @@ def wval(v):
   return {'s': cps('<%s>' % type(v).__name__)}
 
 
-def unwval(w):
+def unwval(w, shared=None):
+  """Builds the Python value. `{"def": n, "v": w}` defines a shared container, `{"ref": n}` puts the
+  very same object at a further position (aliasing; never cyclic)."""
+  shared = {} if shared is None else shared
   if w is None or isinstance(w, int):
     return w
   if 's' in w:
     return uncps(w['s'])
+  if 'ref' in w:
+    return shared.get(w['ref'])
+  if 'def' in w:
+    if 'd' in w['v']:
+      obj = {}
+      shared[w['def']] = obj
+      for k, x in w['v']['d']:
+        obj[unwkey(k)] = unwval(x, shared)
+    else:
+      obj = []
+      shared[w['def']] = obj
+      for x in w['v']['l']:
+        obj.append(unwval(x, shared))
+    return obj
   if 'd' in w:
-    return {unwkey(k): unwval(x) for k, x in w['d']}
-  return [unwval(x) for x in w['l']]
+    return {unwkey(k): unwval(x, shared) for k, x in w['d']}
+  return [unwval(x, shared) for x in w['l']]
+
+
+def wval_shared(v):
+  """Serialises a value keeping aliasing: a dict/list object that occurs at several positions is
+  written once (`def`) and referred to afterwards (`ref`)."""
+  count = {}
+
+  def walk(x):
+    if isinstance(x, (dict, list)):
+      count[id(x)] = count.get(id(x), 0) + 1
+      if count[id(x)] > 1:
+        return
+      for y in (x.values() if isinstance(x, dict) else x):
+        walk(y)
+  walk(v)
+  names = {}
+
+  def ser(x):
+    if not isinstance(x, (dict, list)):
+      return wval(x)
+    if count[id(x)] > 1:
+      if id(x) in names:
+        return {'ref': names[id(x)]}
+      names[id(x)] = len(names)
+      n = names[id(x)]
+      body = ({'d': [[wkey(k), ser(y)] for k, y in x.items()]} if isinstance(x, dict)
+              else {'l': [ser(y) for y in x]})
+      return {'def': n, 'v': body}
+    if isinstance(x, dict):
+      return {'d': [[wkey(k), ser(y)] for k, y in x.items()]}
+    return {'l': [ser(y) for y in x]}
+  return ser(v)
+
+
+def unfold_w(w):
+  """The value as a tree: every alias replaced by a copy (what the Lean model is given)."""
+  return wval(unwval(w))
+
+
+def alias_count(v):
+  """Number of extra positions at which some container object occurs again."""
+  seen, extra = set(), [0]
+
+  def walk(x):
+    if isinstance(x, (dict, list)):
+      if id(x) in seen:
+        extra[0] += 1
+      seen.add(id(x))
+      for y in (x.values() if isinstance(x, dict) else x):
+        walk(y)
+  walk(v)
+  return extra[0]
 
 
 def digit_classes(obj):
@@ -269,7 +338,9 @@ def gen_set_path(rng, dollar):
 
 SET_OPS = [(8, 'add'), (2, 'add_ii'), (8, 'remove'), (5, 'contains'), (3, 'has_prefix'), (3, 'rebase'),
            (2, 'subtree'), (4, 'update'), (3, 'union'), (4, 'intersection_update'), (3, 'intersection'),
-           (4, 'difference_update'), (3, 'difference'), (1, 'clear'), (4, 'eq'), (2, 'swap')]
+           (4, 'difference_update'), (3, 'difference'), (1, 'clear'), (4, 'eq'), (2, 'swap'),
+           (1, 'self_update'), (1, 'self_union'), (1, 'self_intersection_update'), (1, 'self_intersection'),
+           (1, 'self_difference_update'), (1, 'self_difference'), (1, 'self_eq')]
 
 
 def gen_value(rng, depth, flat_friendly, top=False):
@@ -289,6 +360,58 @@ def gen_value(rng, depth, flat_friendly, top=False):
       k = gen_key(rng)
     d[k] = gen_value(rng, depth - 1, flat_friendly)
   return d
+
+
+def containers_of(v):
+  """(object, set of ids of the object and its descendants) for every distinct container below v."""
+  out, seen = [], set()
+
+  def walk(x):
+    if not isinstance(x, (dict, list)):
+      return set()
+    ids = {id(x)}
+    for y in (x.values() if isinstance(x, dict) else x):
+      ids |= walk(y)
+    if id(x) not in seen:
+      seen.add(id(x))
+      out.append((x, ids))
+    return ids
+  walk(v)
+  return out
+
+
+def add_aliases(rng, v, flat_friendly):
+  """Places the same dict/list object (or an equal but distinct copy) at further positions of v:
+  as a sibling, at a parent / descendant level of another branch, twice inside a list. Never into
+  itself or one of its own descendants (no cycles)."""
+  import copy
+  if not isinstance(v, (dict, list)):
+    return v
+  for _ in range(rng.randint(1, 3)):
+    cs = containers_of(v)
+    cands = [c for c in cs if c[0] is not v]
+    if cands and rng.chance(0.8):
+      sub, ids = rng.choice(cands)
+    else:
+      sub = rng.choice([[1, 2], {'p': 1, 'q': [0]}, [], {}, [[3]], {'k': {'z': None}}])
+      ids = {id(sub)} | {i for _, d in containers_of(sub) for i in d}
+    places = rng.randint(1, 2) if sub in [c[0] for c in cands] else 2
+    for _ in range(places):
+      targets = [c[0] for c in containers_of(v) if id(c[0]) not in ids]
+      if not targets:
+        break
+      t = rng.choice(targets)
+      obj = copy.deepcopy(sub) if rng.chance(0.2) else sub     # equal but distinct, sometimes
+      if isinstance(t, list):
+        t.insert(rng.randint(0, len(t)), obj)
+        if rng.chance(0.3):
+          t.append(obj)                                        # twice in the same list
+      else:
+        pool = (['s1', 's2', 'y', 'zz', '0', '-1'] if flat_friendly else ['s1', 'x.y', '[0]', 'a[b]', 7, 0])
+        free = [k for k in pool if k not in t]
+        if free:
+          t[rng.choice(free)] = obj
+  return v
 
 
 def flat_of(v):
@@ -383,9 +506,15 @@ class C10(Prop):
         ops.append({'k': k, 'p': wpath(p)})
       yield {'op': 'set', 'a': [wpath(p) for p in a], 'b': [wpath(p) for p in b], 'ops': ops}
     for _ in range(n_hier):
-      yield {'op': 'hier', 'v': wval(gen_value(rng, 3, rng.chance(0.7), top=not rng.chance(0.05)))}
+      ff = rng.chance(0.7)
+      v = gen_value(rng, 3, ff, top=not rng.chance(0.05))
+      if rng.chance(0.4):
+        v = add_aliases(rng, v, ff)
+      yield {'op': 'hier', 'v': wval_shared(v)}
     for _ in range(n_query):
       v = gen_value(rng, 3, True, top=True)
+      if rng.chance(0.3):
+        v = add_aliases(rng, v, True)
       nodes = list(all_nodes(v))
       p = list(rng.choice(nodes))
       m = rng.below(6)
@@ -393,9 +522,23 @@ class C10(Prop):
         p = p + [rng.choice([0, -1, 5, 'a', 'v', 'b', ''])]
       elif m == 1 and p:
         p[-1] = rng.choice([0, -1, -2, 3, 'a', 'zz', '0'])
-      yield {'op': 'query', 'v': wval(v), 'p': wpath(p)}
+      yield {'op': 'query', 'v': wval_shared(v), 'p': wpath(p)}
     for _ in range(n_canon):
-      yield {'op': 'canon', 'v': wval(self.gen_noncanonical(rng))}
+      v = self.gen_noncanonical(rng)
+      if rng.chance(0.25):
+        v = add_aliases(rng, v, True)
+      if rng.chance(0.15):
+        # the same object under two keys, and a path-like key that patches below one of them
+        sub = rng.choice([[1, 2], [{'p': 1}], {'p': 1, 'q': [0]}, {'k': {'z': None}}, [[3], 4]])
+        k1, k2 = rng.sample(['a', 'b', 'c', 'x'], 2)
+        v = {k1: sub, k2: sub} if rng.chance(0.7) else {k1: [sub, sub]}
+        tgt = k1 if isinstance(v[k1], (dict,)) or v[k1] is sub else k1 + '[0]'
+        suffix = rng.choice(['[0]', '[5]', '.p', '.new', '[0].p', '.q[0]', '.k.z2'])
+        if rng.chance(0.5):
+          v[tgt + suffix] = rng.choice([7, 'n', None])
+        else:
+          v = dict([(tgt + suffix, 7)] + list(v.items()))
+      yield {'op': 'canon', 'v': wval_shared(v)}
     # small exhaustive family: every key sequence of length <= 2 over strings of length <= 2 from a
     # 6-character alphabet plus three ints (thorough: length <= 3 strings)
     alpha = ['a', '0', '-', '.', '[', ']']
@@ -412,7 +555,9 @@ class C10(Prop):
 
   def gen_arith(self, rng):
     p = gen_wf_keys(rng, 0, 4) if rng.chance(0.85) else gen_keys(rng, 0, 4)
-    m = rng.below(12)
+    m = rng.below(13)
+    if m == 12:
+      return {'op': 'arith', 'p': wpath(p), 'q': {'same': True}}
     if m < 3:
       q = {'path': wpath(p[:rng.randint(0, len(p))])}
     elif m < 5:
@@ -469,7 +614,11 @@ class C10(Prop):
     if case['op'] == 'routes':
       case = {'op': 'rt', 'keys': case['keys']}
     r = dict(case)
-    r['dc'] = digit_classes(case)
+    if 'v' in r:
+      r['v'] = unfold_w(r['v'])        # the model is over trees: aliasing is unfolded
+    if r['op'] == 'arith' and 'same' in r['q']:
+      r['q'] = {'path': r['p']}
+    r['dc'] = digit_classes(r)
     return r
 
   def compare(self, case, impl_out, model_out):
@@ -510,7 +659,8 @@ class C10(Prop):
     if op == 'arith':
       return self.impl_arith(case, KeyPath)
     if op == 'order':
-      ps = [KeyPath(unwpath(p)) for p in case['ps']]
+      objs = {}
+      ps = [objs.setdefault(json.dumps(p), KeyPath(unwpath(p))) for p in case['ps']]
       lt = [[bool(a < b) for b in ps] for a in ps]
       eq = [[bool(a == b) for b in ps] for a in ps]
       return {'model': {'lt': lt}, 'eq': eq}
@@ -647,6 +797,8 @@ class C10(Prop):
       o['add'] = t(lambda: p + other, lambda r: [wpath(r.keys), cps(str(r))])
       o['child'] = t(lambda: KeyPath(extra, p), lambda r: [wpath(r.keys), cps(str(r)), hash(r) == hash(KeyPath(keys + [extra]))])
       o['parent'] = t(lambda: p.parent, lambda r: [wpath(r.keys), cps(str(r))])
+      o['self'] = [bool(p == p), t(lambda: bool(p < p)), t(lambda: bool(p <= p)), t(lambda: bool(p.is_relative_to(p))),
+                   t(lambda: p - p, lambda r: wpath(r.keys)), t(lambda: p + p, lambda r: wpath(r.keys))]
       o['depth'] = len(p)
       out.append(o)
     return {'model': {'routes': [[o['route'], o['str'], o['parsed'], o['plain']] for o in out]}, 'obs': out}
@@ -655,6 +807,8 @@ class C10(Prop):
     obs = out['obs']
     base = obs[0]
     keys = unwpath(case['keys'])
+    if base['self'] != [True, False, True, True, [], case['keys'] + case['keys']]:
+      return {'signature': 'routes:self', 'what': 'p == p, p < p, p <= p, p.is_relative_to(p), p - p, p + p = %s for %r' % (base['self'], keys)}
     if base['keys'] != case['keys']:
       return {'signature': 'routes:keys', 'what': 'KeyPath(%r).keys = %r' % (keys, unwpath(base['keys']))}
     for o in obs:
@@ -682,7 +836,10 @@ class C10(Prop):
     import operator
     p = KeyPath(unwpath(case['p']))
     q = case['q']
-    if 'path' in q:
+    if 'same' in q:
+      o = p                         # the very same object on both sides
+      q = {'path': case['p']}
+    elif 'path' in q:
       o = KeyPath(unwpath(q['path']))
     elif 'str' in q:
       o = uncps(q['str'])
@@ -733,8 +890,17 @@ class C10(Prop):
     return {'model': out, 'extra': extra}
 
   def impl_set(self, case, KeyPath, KeyPathSet):
+    cache = {}
+
+    def kpath(w):
+      # equal key sequences are the very same KeyPath object wherever they occur in the case
+      key = json.dumps(w)
+      if key not in cache:
+        cache[key] = KeyPath(unwpath(w))
+      return cache[key]
+
     def mk(paths):
-      return KeyPathSet([KeyPath(unwpath(p)) for p in paths])
+      return KeyPathSet([kpath(p) for p in paths])
 
     def lst(s):
       return [wpath(p.keys) for p in s]
@@ -744,7 +910,10 @@ class C10(Prop):
       return {'model': {'init': {'err': 'AssertionError'}, 'steps': []}, 'init_error': type(e).__name__}
     steps = []
     for o in case['ops']:
-      k, p = o['k'], KeyPath(unwpath(o['p']))
+      k, p = o['k'], kpath(o['p'])
+      other = b
+      if k.startswith('self_'):
+        k, other = k[5:], a            # the set itself is the other operand
       try:
         if k == 'swap':
           a, b = b, a
@@ -765,21 +934,21 @@ class C10(Prop):
           st = a.subtree(p)
           r = None if st is None else lst(st)
         elif k == 'update':
-          r = a.update(b)
+          r = a.update(other)
         elif k == 'union':
-          r = lst(a.union(b))
+          r = lst(a.union(other))
         elif k == 'intersection_update':
-          r = a.intersection_update(b)
+          r = a.intersection_update(other)
         elif k == 'intersection':
-          r = lst(a.intersection(b))
+          r = lst(a.intersection(other))
         elif k == 'difference_update':
-          r = a.difference_update(b)
+          r = a.difference_update(other)
         elif k == 'difference':
-          r = lst(a.difference(b))
+          r = lst(a.difference(other))
         elif k == 'clear':
           r = a.clear()
         elif k == 'eq':
-          r = bool(a == b)
+          r = bool(a == other)
         else:
           raise ValueError(k)
       except (TypeError, AssertionError, KeyError, AttributeError) as e:
@@ -793,23 +962,28 @@ class C10(Prop):
     v = unwval(case['v'])
     pre, post, lookup, pre_sym = [], [], [], []
 
-    lookup_str, strs, hist = [], [], []
+    lookup_str, strs, hist, ident, ident_str = [], [], [], [], []
 
     def pre_fn(path, x):
       pre.append(wpath(path.keys))
       try:
         r = path.query(v)
-        lookup.append('same' if r is x else 'diff')
+        # compared with the model (which is over trees): structural equality; identity is kept apart
+        lookup.append('same' if (r is x or (type(r) is type(x) and r == x)) else 'diff')
+        ident.append(r is x)
       except Exception as e:     # pylint: disable=broad-except
         lookup.append(type(e).__name__)
+        ident.append(False)
       # what every real visitor does: print the path (so children are built from a formatted parent)
       s = str(path)
       strs.append(cps(s))
       try:
         r = KeyPath.parse(s).query(v)
-        lookup_str.append('same' if r is x else 'diff')
+        lookup_str.append('same' if (r is x or (type(r) is type(x) and r == x)) else 'diff')
+        ident_str.append(r is x)
       except Exception as e:     # pylint: disable=broad-except
         lookup_str.append(type(e).__name__)
+        ident_str.append(False)
       fresh = KeyPath(list(path.keys))
       hist.append([cps(str(fresh)), hash(path) == hash(fresh), bool(path == fresh), bool(fresh == path),
                    bool(path == str(fresh))])
@@ -834,8 +1008,12 @@ class C10(Prop):
     pg.traverse(v, pre3, post3)
     leaves = pg.query(v, where=lambda x: not isinstance(x, (dict, list)))
     leaves_rx = pg.query(v, r'(?s).*', where=lambda x: not isinstance(x, (dict, list)))
+    from pyglove.core.symbolic import base as sym_base
+    rebind = sym_base.get_rebind_dict(
+        lambda k, x: x + 1 if isinstance(x, int) and not isinstance(x, bool) else x, v)
+    all_q = pg.query(v, custom_selector=lambda k, x: True, enter_selected=True)
     out = {'pre': pre, 'post': post, 'lookup': lookup, 'lookup_str': lookup_str, 'strs': strs,
-           'leaves': wval(dict(leaves))}
+           'leaves': wval(dict(leaves)), 'rebind': wval(dict(rebind))}
     for name, fck in (('t', True), ('f', False)):
       f = utils.flatten(v, fck)
       out['flat_' + name] = wval(f)
@@ -843,7 +1021,7 @@ class C10(Prop):
         out['canon_flat_' + name] = wval(utils.canonicalize(f))
       except Exception as e:     # pylint: disable=broad-except
         out['canon_flat_' + name] = _exc(e)
-    return {'model': out, 'pre_sym': pre_sym, 'post_sym': post_sym, 'hist': hist, 'sym_strs': sym_strs,
+    return {'model': out, 'pre_sym': pre_sym, 'post_sym': post_sym, 'hist': hist, 'ident': ident, 'ident_str': ident_str, 'sym_strs': sym_strs, 'all_q': [cps(k) for k in all_q.keys()],
             'leaves_rx': wval(dict(leaves_rx))}
 
   # -- the property itself ----------------------------------------------------------------
@@ -887,6 +1065,8 @@ class C10(Prop):
     m, x = out['model'], out['extra']
     p = unwpath(case['p'])
     q = case['q']
+    if 'same' in q:
+      q = {'path': case['p']}
     if x['hot'] != m or x['hot_strs'][0] != x['hot_strs'][1]:
       return {'signature': 'path-depends-on-construction:arith', 'what': 'arithmetic on operands whose strings are cached '
               'gives %s / prints %s; on fresh operands %s / %s' % (json.dumps(x['hot'])[:200], x['hot_strs'][0], json.dumps(m)[:200], x['hot_strs'][1])}
@@ -995,6 +1175,9 @@ class C10(Prop):
         return fail(k + '-raises', '%s(%r) raised %s' % (k, unwpath(o['p']), st['err']))
       r = st['r']
       want_r = r
+      Bsave = B
+      if k.startswith('self_'):
+        k, B = k[5:], set(A)
       if k == 'swap':
         A, B = B, A
       elif k == 'add':
@@ -1052,6 +1235,8 @@ class C10(Prop):
         return fail(k, 'after %s(%r) the set iterates %r, want %r' % (k, p, sorted(got), sorted(A)))
       if st['bool'] != bool(A):
         return fail(k + '-bool', 'after %s(%r) bool(set) is %r for the set %r' % (k, p, st['bool'], sorted(A)))
+      if o['k'].startswith('self_'):
+        B = Bsave
     return None
 
   def oracle_hier(self, case, out):
@@ -1066,10 +1251,20 @@ class C10(Prop):
       return {'signature': 'traverse:preorder', 'what': 'pre-order log %r differs from the document order %r' % (pre, want)}
     if sorted(post) != sorted(want):
       return {'signature': 'traverse:post-visits', 'what': 'post-order visits %r' % (post,)}
+    pre_sym = [tpath(unwpath(p)) for p in out['pre_sym']]
+    post_sym = [tpath(unwpath(p)) for p in out['post_sym']]
+    for name, log in (('pre', pre_sym), ('post', post_sym)):
+      if sorted(log) != sorted(want):
+        missing = [p for p in want if p not in log]
+        twice = sorted({p for p in log if log.count(p) > 1})
+        return {'signature': 'traverse:pg-visits',
+                'what': 'pg.traverse (%s-order) reports %d paths, the value has %d nodes; never visited: %r; visited '
+                        'more than once: %r' % (name, len(log), len(want), missing[:6], twice[:6])}
     if out['pre_sym'] != m['pre'] or out['post_sym'] != m['post']:
       return {'signature': 'traverse:pg-vs-utils', 'what': 'pg.traverse and utils.traverse disagree: %r vs %r' % (out['pre_sym'], m['pre'])}
-    for p, l in zip(m['pre'], m['lookup']):
-      if l != 'same':
+    for p, l, idn in zip(m['pre'], m['lookup'], out['ident']):
+      if l != 'same' or not idn:
+        l = l if l != 'same' else 'equal-but-not-the-node'
         return {'signature': 'lookup:' + l, 'what': 'the visited path %r, looked up from the root, gives %s' % (unwpath(p), l)}
     for p, st, h in zip(m['pre'], m['strs'], out['hist']):
       if st != h[0] or not (h[1] and h[2] and h[3] and h[4]):
@@ -1079,10 +1274,28 @@ class C10(Prop):
     if out['sym_strs'] != m['strs']:
       return {'signature': 'path-depends-on-construction', 'what': 'pg.traverse prints %r, utils.traverse %r' % (
           [uncps(x) for x in out['sym_strs']], [uncps(x) for x in m['strs']])}
-    for p, l in zip(m['pre'], m['lookup_str']):
+    for p, l, idn in zip(m['pre'], m['lookup_str'], out['ident_str']):
+      if l == 'same' and not idn:
+        l = 'equal-but-not-the-node'
       if l != 'same' and all(wf_key(k) for k in unwpath(p)):
         return {'signature': 'lookup-via-str:' + l, 'what': 'the visited path %r, printed (%r), parsed and looked up '
                 'from the root, gives %s' % (unwpath(p), uncps(m['strs'][m['pre'].index(p)]), l)}
+    if all(wf_key(k) for p in want for _, k in p):
+      if len(out['all_q']) != len(want):
+        return {'signature': 'query:all-nodes', 'what': 'pg.query selecting every node returns %d entries for %d nodes: %r' % (
+            len(out['all_q']), len(want), [uncps(k) for k in out['all_q']][:12])}
+      ints = [p for p in all_nodes(v) if isinstance(self._at(v, p), int)]
+      if len(m['rebind']['d']) != len(ints):
+        return {'signature': 'rebinder:entries', 'what': 'get_rebind_dict has %d entries for %d int leaves' % (
+            len(m['rebind']['d']), len(ints))}
+      for k, x in m['rebind']['d']:
+        try:
+          from pyglove.core.utils.value_location import KeyPath
+          old_x = KeyPath.parse(uncps(k)).query(v)
+        except Exception as e:     # pylint: disable=broad-except
+          return {'signature': 'rebinder:address', 'what': 'rebind key %r does not address a node: %s' % (uncps(k), type(e).__name__)}
+        if not isinstance(old_x, int) or old_x + 1 != x:
+          return {'signature': 'rebinder:address', 'what': 'rebind key %r addresses %r, new value %r' % (uncps(k), old_x, x)}
     if out['leaves_rx'] != m['leaves']:
       return {'signature': 'query:regex-vs-plain', 'what': 'pg.query with a match-all path_regex selects %s, without %s' % (
           json.dumps(out['leaves_rx'])[:200], json.dumps(m['leaves'])[:200])}
@@ -1181,12 +1394,13 @@ class C10(Prop):
     elif op == 'hier':
       v = unwval(case['v'])
       h.append('hier:depth=%d' % depth_of(v))
+      h.append('hier:aliased-positions=%d' % min(alias_count(v), 4))
       h.append('hier:nodes=%d' % min(len(m['pre']), 20))
       for name, fck in (('t', True), ('f', False)):
         h.append('hier:canonical_%s=%s' % (name, canonical_value(v, fck)))
         c = m['canon_flat_' + name]
         h.append('hier:canon_flat_%s=%s' % (name, c['err'] if isinstance(c, dict) and 'err' in c else
-                                           'identity' if c == case['v'] else 'different'))
+                                           'identity' if c == unfold_w(case['v']) else 'different'))
     elif op == 'query':
       r = m['r']
       h.append('query:' + (r['err'] if isinstance(r, dict) and 'err' in r else 'found'))
@@ -1257,21 +1471,29 @@ class C10(Prop):
           c['ps'][i] = p[:j] + p[j + 1:]
           yield c
     elif op in ('hier', 'canon', 'query'):
-      w = case['v']
-      if isinstance(w, dict):
-        kind = 'd' if 'd' in w else 'l' if 'l' in w else None
-        if kind:
-          items = w[kind]
-          for i in range(len(items)):
-            c = dict(case)
-            c['v'] = {kind: items[:i] + items[i + 1:]}
-            yield c
-          for i, it in enumerate(items):
-            sub = it[1] if kind == 'd' else it
-            if isinstance(sub, dict) and ('d' in sub or 'l' in sub):
-              c = dict(case)
-              c['v'] = sub
-              yield c
+      import copy
+      v = unwval(case['v'])
+      cs = containers_of(v)
+      # delete one item of one container (aliasing of everything else preserved by deepcopy's memo)
+      for ci, (c, _) in enumerate(cs):
+        n = len(c)
+        for i in range(n):
+          v2 = copy.deepcopy(v)
+          c2 = containers_of(v2)[ci][0]
+          if isinstance(c2, dict):
+            del c2[list(c2.keys())[i]]
+          else:
+            del c2[i]
+          cand = dict(case)
+          cand['v'] = wval_shared(v2)
+          yield cand
+      # promote a sub-container to the root
+      for c, _ in cs:
+        if c is not v:
+          cand = dict(case)
+          cand['v'] = wval_shared(c)
+          yield cand
+      # replace a leaf-free alias by an unaliased copy is *not* tried: aliasing may be the point
 
 
 PROP = C10()
